@@ -26,6 +26,11 @@ def ensure_registered():
     class Sensor21(object):
         pass
 
+    @stix2.v21.CustomObservable("x-stixmon-stamp", [("stamped", P.TimestampProperty(precision="millisecond")), ("stamped_s", P.TimestampProperty(precision="second"))],
+                                id_contrib_props=["stamped", "stamped_s"])
+    class Stamp21(object):
+        pass
+
     @stix2.v21.CustomObservable("x-stixmon-anon", [("label", P.StringProperty())])
     class Anon21(object):
         pass
@@ -60,7 +65,7 @@ def ensure_registered():
         pass
 
     _done.update({
-        ("2.1", "object"): Widget21, ("2.1", "observable"): Sensor21, ("2.1", "observable-noid"): Anon21, ("2.1", "extension"): Ext21,
+        ("2.1", "stamp"): Stamp21, ("2.1", "object"): Widget21, ("2.1", "observable"): Sensor21, ("2.1", "observable-noid"): Anon21, ("2.1", "extension"): Ext21,
         ("2.1", "marking"): Marking21, ("2.0", "object"): Widget20, ("2.0", "observable"): Sensor20, ("2.0", "extension"): Ext20,
         ("2.0", "marking"): Marking20,
     })
